@@ -149,7 +149,7 @@ Proof.
   - intros x y Hx Hy. cbn [mat_model lm_D lm_R par_dim] in Hx, Hy. apply qc_adjoint; assumption.
   - cbn [mat_model lm_D lm_R par_dim] in *.
     assert (G = A).
-    { apply (mat_ext n); [exact WG | exact WA | rewrite LG; symmetry; exact HL | exact HG]. }
+    { apply (mat_ext n); [exact WG | exact WA | transitivity k; [exact LG | symmetry; exact HL] | exact HG]. }
     subst G. split; [exact EF|]. split; [exact EA|]. reflexivity.
 Qed.
 
@@ -203,3 +203,62 @@ Proof.
   - destruct (is_float opdt) eqn:E; [|reflexivity]. rewrite (float_result f is_fun opdt rg dg xdt (or_introl E)) in H. discriminate.
   - destruct (is_float xdt) eqn:E; [|reflexivity]. rewrite (float_result f is_fun opdt rg dg xdt (or_intror E)) in H. discriminate.
 Qed.
+
+(* ---------- further instances of the Samples(I) theorem ---------- *)
+Lemma mat_model_adjoint n A D R y : wf_geom D -> wf_geom R -> vec_geom D -> vec_geom R -> wf_mat n A -> n = fun_dim D ->
+  length y = par_dim R -> adjoint (mat_model n A D R) (V1 y) = Some (V1 (fm_adjoint n A D R y)).
+Proof.
+  intros WD WR VD VR WA Hn Hy. unfold adjoint, apply_func, fm_adjoint. cbn [mat_model lm_adj lm_D lm_R].
+  rewrite (p2f_pmap R y Hy). cbn [obind]. rewrite (funval_vec R _ VR). cbn [mat_adj obind].
+  rewrite <- (funval_vec D (qmattvec n A (pmap R y)) VD). apply f2p_fmap; [exact WD|].
+  rewrite qmattvec_length by exact WA. exact Hn.
+Qed.
+
+(* instance 3: a stored matrix through vector-valued orthogonal geometries (one-node steps, transposing expansions, ...):
+   forward(Samples(I)) is the matrix of the PARAMETER map -- what the repaired get_matrix assembles -- and adjoint(Samples(I))
+   its transpose *)
+Theorem mat_model_vec_samples_identity n A D R :
+  wf_geom D -> wf_geom R -> vec_geom D -> vec_geom R -> wf_mat n A -> n = fun_dim D -> length A = fun_dim R ->
+  orth_geom D -> orth_geom R ->
+  exists G, forward_of_identity (mat_model n A D R) = Some G /\
+            adjoint_of_identity (mat_model n A D R) = Some (tr (par_dim D) G) /\
+            get_matrix_gen false (mat_model n A D R) = Some G /\
+            (forall x, length x = par_dim D -> forward (mat_model n A D R) (V1 x) = Some (V1 (qmatvec G x))).
+Proof.
+  intros WD WR VD VR WA Hn HL OD OR.
+  destruct (samples_identity_transpose (mat_model n A D R) (fm_forward A D R) (fm_adjoint n A D R)) as (G & EF & EA & _ & _ & HG & _).
+  - intros x Hx. apply mat_model_forward; assumption.
+  - apply (fm_forward_linear n); assumption.
+  - intros y Hy. apply mat_model_adjoint; assumption.
+  - apply fm_adjoint_linear; assumption.
+  - intros x y Hx Hy. cbn [mat_model lm_D lm_R] in Hx, Hy.
+    destruct (adjoint_matrix_model n A D R WA Hn HL VD VR OD OR x y Hx Hy) as (fx & ay & E1 & E2 & _ & _ & E).
+    rewrite (mat_model_forward n A D R x) in E1 by assumption. rewrite (mat_model_adjoint n A D R y) in E2 by assumption.
+    inversion E1; inversion E2; subst. exact E.
+  - exists G. split; [exact EF|]. split; [exact EA|]. split.
+    + rewrite get_matrix_gen_false. rewrite <- forward_of_identity_get_matrix by reflexivity. exact EF.
+    + intros x Hx. cbn [mat_model lm_D] in HG. rewrite (HG x Hx). apply mat_model_forward; assumption.
+Qed.
+
+(* instance 4: Deconvolution1D's model as the check runs it (matrix computed from PSF and boundary mode, all five modes, every
+   PSF): forward(Samples(I)) is that matrix, whose action is the documented convolution, and adjoint(Samples(I)) its transpose *)
+Theorem deconv1_samples_identity m P n :
+  forward_of_identity (mat_model n (deconv1_matrix false m P n) (GId n) (GId n)) = Some (deconv1_matrix false m P n) /\
+  adjoint_of_identity (mat_model n (deconv1_matrix false m P n) (GId n) (GId n)) = Some (tr n (deconv1_matrix false m P n)) /\
+  (forall x, length x = n -> qmatvec (deconv1_matrix false m P n) x = conv1 m P x).
+Proof.
+  destruct (deconv1_rows_shape m P n) as [W L].
+  assert (WA : wf_mat n (deconv1_matrix false m P n)).
+  { unfold deconv1_matrix, deconv1_cols. pose proof (tr_rows n (deconv1_rows m P n)) as HR. rewrite L in HR. exact HR. }
+  assert (LA : length (deconv1_matrix false m P n) = n).
+  { unfold deconv1_matrix, deconv1_cols. apply tr_length. exact W. }
+  destruct (mat_model_samples_identity n (deconv1_matrix false m P n) n WA LA) as (E1 & E2 & _).
+  split; [exact E1|]. split; [exact E2|]. intros x Hx. apply deconv1_cols_operator. exact Hx.
+Qed.
+
+(* ---------- the transposed model swaps the two, also on Samples(I) and in the dtype of the result ---------- *)
+Theorem transpose_swaps_samples_identity k m :
+  forward_of_identity (lmT2 k m) = adjoint_of_identity m /\ adjoint_of_identity (lmT2 k m) = forward_of_identity m /\
+  (forall f is_fun opdt xdt, forward_dt f is_fun opdt (lmT2 k m) xdt = adjoint_dt f is_fun opdt m xdt) /\
+  (forall f is_fun opdt xdt, adjoint_dt f is_fun opdt (lmT2 k m) xdt = forward_dt f is_fun opdt m xdt).
+Proof. repeat split. Qed.
